@@ -170,7 +170,7 @@ def run(ctx):
     if f:
         T = tpl.Templates(f)
         txt = " ".join(T.render(T.root_streams()[-1])) if T.root_streams() else ""
-        rx = r":: darling :: export :: identity :: < fn \( & :: (darling :: export :: )?syn :: Meta \) -> :: darling :: Result < _ >> \( ⟨alloc::borrow::Cow<'_, syn::expr::Expr>⟩ \) \( __inner \) ⟨core::option::Option<darling_core::codegen::postfix_transform::PostfixTransform>⟩ \. map_err \("
+        rx = r":: darling :: export :: identity :: < fn \( & :: (darling :: export :: )?syn :: Meta \) -> :: darling :: Result < _ >> \( ⟨syn::expr::Expr⟩ \) \( __inner \) ⟨core::option::Option<darling_core::codegen::postfix_transform::PostfixTransform>⟩ \. map_err \("
         n = len(re.findall(rx, txt))
         ctx.ob("C01.H.pipeline-order", f.key, "converter(__inner) → post_transform → map_err", n >= 2, "%d extractors in that order" % n)
     f = ctx.fn("<darling_core::codegen::postfix_transform::PostfixTransform as quote::to_tokens::ToTokens>::to_tokens")
